@@ -16,12 +16,12 @@
  * (and the heading and separator lines by one marker naming the command)
  * so that the row / footer ASSEMBLY (order of fields, separating blanks, line ends, blank fill, totals) is compared
  * while the fields themselves are compared column by column elsewhere.
- * Token conventions are those of out_model.h: kind 'd' signed decimal, 'u' unsigned decimal, 'x' hex; flags 1 = left-justified, 2 = zero-padded; width 0 = none;
+ * Token conventions are those of out_model.h: kind 'd' signed decimal, 'u' unsigned decimal (hex digits are bytes); flags 1 = left-justified, 2 = zero-padded; width 0 = none;
  * prec 0xff = none.
  *
  * LAYOUT
  *   row (l)  : PERM(10) ' ' OWNER(11) ' ' SIZE(7) ' ' RATIO(6) ' ' STAMP(12) ' ' NAME '\n'
- *   row (v)  : PERM ' ' OWNER ' ' PACKED(7) ' ' SIZE ' ' RATIO ' ' METHOD(5) ' ' CRC(4 hex) ' ' STAMP ' ' NAME '\n'
+ *   row (v)  : PERM ' ' OWNER ' ' PACKED(7) ' ' SIZE ' ' RATIO ' ' METHOD(5) ' ' CRC(4 hex digits) ' ' STAMP ' ' NAME '\n'
  *   row (lv) : NAME2 '\n' PERM ' ' OWNER ' ' SIZE ' ' RATIO ' ' STAMP ' ' '[' level ']' '\n'
  *   row (vv) : NAME2 '\n' PERM ' ' OWNER ' ' PACKED ' ' SIZE ' ' RATIO ' ' METHOD ' ' CRC ' ' FULLSTAMP(19) ' ' '[' level ']' '\n'
  *   PERM     : OS-9 permissions if the header has them: 'd' or '-', then s e w r e w r for bits 6..0, then 2 blanks;
@@ -149,14 +149,17 @@ static void ref_ratio_row(const LHAFileHeader *h)
 /* ---- METHOD CRC ---- */
 static void ref_method_crc(const LHAFileHeader *h)
 {
+	static const char hex[] = "0123456789abcdef";
 	unsigned i, ended = 0;
-	/* the method string (at most 5 characters), filled with blanks to 5 columns */
+	/* the method string (at most 5 characters, shown like a name), filled with blanks to 5 columns */
 	for (i = 0; i < 5; ++i) {
-		if (h->compress_method[i] == '\0') ended = 1;
-		ref_b(ended ? (u8) ' ' : (u8) h->compress_method[i]);
+		u8 c = (u8) h->compress_method[i];
+		if (c == '\0') ended = 1;
+		ref_b(ended ? (u8) ' ' : (c >= 0x20 && c <= 0x7e) ? c : (u8) '?');
 	}
 	ref_b(' ');
-	ref_num('x', REF_ZERO, 4, REF_NOPREC, (u64) h->crc);
+	/* the 16-bit CRC as exactly four lower-case hex digits */
+	ref_b((u8) hex[(h->crc >> 12) & 15]); ref_b((u8) hex[(h->crc >> 8) & 15]); ref_b((u8) hex[(h->crc >> 4) & 15]); ref_b((u8) hex[h->crc & 15]);
 }
 
 /* ---- time stamps ---- */
